@@ -7,7 +7,7 @@ package transport
 // C17: for each wrapper variant sink(v) is one fixed object, and every Write/Writev/Flush/
 // Read/Close of the variant talks to exactly that object with exactly the caller's arguments.
 
-//@ property C17 C01 C02
+//@ property C17 C01 C02 C04 C09 C14
 //@ spec func invBuf(b *bufConn) bool = b != nil && b.Conn != nil && b.rw != nil && b.rw.Writer != nil && b.rw.Reader != nil && wunder(b.rw.Writer) == b.Conn && wunder_t(b.rw.Writer) == typeof(b.Conn) && runder(b.rw.Reader) == b.Conn && runder_t(b.rw.Reader) == typeof(b.Conn)
 //@ spec func invBufR(b *bufReadConn) bool = b != nil && b.Conn != nil && b.reader != nil && runder(b.reader) == b.Conn && runder_t(b.reader) == typeof(b.Conn)
 //@ spec func invBufW(b *bufWriteConn) bool = b != nil && b.Conn != nil && b.writer != nil && wunder(b.writer) == b.Conn && wunder_t(b.writer) == typeof(b.Conn)
